@@ -4,7 +4,9 @@ import z3
 from pyvc.values import *
 from pyvc.values import UNFOLD
 from pyvc.contracts import Contract, Lemma
-from pyvc.symexec import attr0, field0, LoopContract, PyFunc, PyTuple, Raise
+from pyvc.symexec import attr0, field0, LoopContract, PyFunc, PyTuple, Raise, fun_id
+from pyvc.values import ForallList, LEMMA_HOOKS
+from pyvc import symexec as SX
 from .common import *
 from .c01 import AllFields
 
@@ -92,5 +94,555 @@ class ResolveFieldValueOrError(Contract):
                 ('failure_is_returned_as_a_value', z3.Implies(self.fails, inst(out.value, 'Exception')))]
 
 
-CONTRACTS = [ResolveFieldValueOrError()]
+
+# ---- wraps_with_directives: the wrapper chain, first declared directive outermost
+D = 'tartiflette/utils/directives.py::'
+
+
+def directive_entry_wf(d):
+    """one entry of a directives definition: {"callables": {hook: callable}, "arguments_coercer": callable, ...}"""
+    it = V.ditems(d)
+    cs = lookup(it, S('callables'))
+    return z3.And(V.is_Dict(d), V.is_Dict(cs), lookup(it, S('arguments_coercer')) != V.Missing)
+
+
+AllDirectiveEntries = ForallList('directive_entry', directive_entry_wf)
+
+
+def wrap_one(wrapper, d, hook, inner):
+    """partial(wrapper, d["callables"][hook], d["arguments_coercer"], inner)"""
+    it = V.ditems(d)
+    return V.Fun(V.fname(wrapper), mklist(V.Pair(V.Int(0), lookup(V.ditems(lookup(it, S('callables'))), hook)), V.Pair(V.Int(1), lookup(it, S('arguments_coercer'))),
+                                          V.Pair(V.Int(2), inner), V.Pair(S('__partial__'), V.Bool(True))))
+
+
+# ChainFrom(ds, j, hook, wrapper, base): directives j.. of the list wrapped around base, directive j outermost; those without the hook are skipped
+ChainFrom = z3.RecFunction('DirectiveChainFrom', VL, IntS, V, V, V, V)
+_ds = z3.Const('wd_ds', VL)
+_j = z3.Int('wd_j')
+_hook, _wr, _base = z3.Consts('wd_hook wd_wrapper wd_base', V)
+
+
+def _chain(ds, j, hook, wr, base):
+    d = nth(ds, j)
+    rest = ChainFrom(ds, j + 1, hook, wr, base)
+    return z3.If(z3.Or(j >= length(ds), j < 0), base,
+                 z3.If(lookup(V.ditems(lookup(V.ditems(d), S('callables'))), hook) != V.Missing, wrap_one(wr, d, hook, rest), rest))
+
+
+z3.RecAddDefinition(ChainFrom, [_ds, _j, _hook, _wr, _base], _chain(_ds, _j, _hook, _wr, _base))
+UNFOLD['DirectiveChainFrom'] = _chain
+
+
+def is_partial(f):
+    return z3.And(V.is_Fun(f), lookup(V.fbound(f), S('__partial__')) != V.Missing)
+
+
+def fn(key):
+    return V.Fun(fun_id(key), VL.nil)
+
+
+def partial1(key, f):
+    return V.Fun(fun_id(key), mklist(V.Pair(V.Int(0), f), V.Pair(S('__partial__'), V.Bool(True))))
+
+
+class WrapsWithDirectives(Contract):
+    """the callable returned is the reversed fold of the definition list: the first declared directive implementing the hook is the outermost
+    wrapper, each one bound to ITS callable and ITS arguments coercer and to the chain of the later ones, the innermost being the wrapped
+    callable (a resolver / generator is first adapted once)"""
+    key = D + 'wraps_with_directives'
+    property_ids = ('C13',)
+    params = ['directives_definition', 'directive_hook', 'func', 'is_resolver', 'with_default', 'is_async_generator']
+
+    def args(self, en, names):
+        self.A = super().args(en, names)
+        return self.A
+
+    def pre(self, A, st):
+        return [('definitions', z3.And(V.is_List(A['directives_definition']), AllDirectiveEntries(V.items(A['directives_definition'])))),
+                ('hook', V.is_Str(A['directive_hook'])),
+                ('func', z3.Or(A['func'] == V.None_, V.is_Fun(A['func']))),
+                ('flags', z3.And(V.is_Bool(A['is_resolver']), V.is_Bool(A['with_default']), V.is_Bool(A['is_async_generator'])))]
+
+    def base(self, A):
+        """the innermost callable after defaulting and the resolver / generator adapters"""
+        hook = A['directive_hook']
+        dflt = z3.If(hook == S('on_argument_execution'), fn(D + 'default_argument_execution_directive'),
+                     z3.If(hook == S('on_post_input_coercion'), fn(D + 'default_post_input_coercion_directive'), fn(D + 'default_directive_callable')))
+        f0 = z3.If(A['func'] == V.None_, dflt, A['func'])
+        f1 = z3.If(z3.And(V.b(A['is_resolver']), z3.Not(is_partial(f0))), partial1(D + 'resolver_executor', f0), f0)
+        gen = z3.And(V.b(A['is_async_generator']), z3.Not(is_partial(f1)))
+        f2 = z3.If(gen, partial1(D + 'subscription_generator', f1), f1)
+        wr = z3.If(gen, fn(D + 'directive_generator'), fn(D + 'directive_executor'))
+        return f2, wr
+
+    def _inv(self, en, st, k, st0):
+        ds = V.items(self.A['directives_definition'])
+        base, wr = self.base(self.A)
+        return {'chain_of_the_last_k_directives': en.read(st.env['func'], st) == ChainFrom(ds, length(ds) - k, self.A['directive_hook'], wr, base),
+                'wrapper_fixed': en.read(st.env['directive_wrapper'], st) == wr}
+
+    @property
+    def loops(self):
+        return {0: LoopContract(self._inv)}
+
+    def post(self, A, st0, out):
+        if out.kind == 'raise':
+            return never_raises(out)
+        ds = V.items(A['directives_definition'])
+        base, wr = self.base(A)
+        nothing = z3.And(A['func'] == V.None_, z3.Not(V.b(A['with_default'])), VL.is_nil(ds))
+        return [('first_declared_outermost_chain', out.value == z3.If(nothing, V.None_, ChainFrom(ds, 0, A['directive_hook'], wr, base)))]
+
+
+
+class DirectiveExecutor(Contract):
+    """one link of the chain: the instance's arguments are coerced once (with the request's coercion context), then ITS hook is awaited exactly
+    once with those arguments, the next stage (bound to the same context) and the untouched remaining arguments; the hook's outcome is the
+    link's outcome -- the executor itself never runs the next stage"""
+    key = D + 'directive_executor'
+    property_ids = ('C13',)
+    params = ['directive_func', 'directive_arguments_coercer', 'wrapped_func', 'context_coercer']
+
+    def args(self, en, names):
+        self.A = A = super().args(en, names)
+        A['args'] = fresh('rest_args')
+        self.kwrest = fresh('rest_kwargs')
+        A['kwargs'] = SX.KwBundle({}, self.kwrest)
+        self.dargs, self.result = fresh('coerced_directive_arguments'), fresh('hook_result')
+        self.coercer_fails, self.hook_fails = fresh('coercer_fails', BoolS), fresh('hook_fails', BoolS)
+        return A
+
+    def pre(self, A, st):
+        return [('callables', z3.And(V.is_Fun(A['directive_func']), V.is_Fun(A['directive_arguments_coercer']), V.is_Fun(A['wrapped_func']))),
+                ('distinct_roles', z3.And(A['directive_func'] != A['directive_arguments_coercer'], A['directive_func'] != A['wrapped_func'],
+                                          A['wrapped_func'] != A['directive_arguments_coercer'])),
+                ('rest', V.is_Tuple(A['args']))]
+
+    def ghost0(self, A):
+        return {'coercer_calls': z3.IntVal(0), 'hook_calls': z3.IntVal(0), 'next_calls': z3.IntVal(0), 'coercer_ctx': V.Missing, 'hook_args': V.Missing,
+                'hook_after_coercer': z3.BoolVal(False)}
+
+    def call_model(self, en, st, f, a, kw):
+        A = self.A
+        e = V.Obj(fresh('ecls', IntS), fresh('eref', IntS))
+        exc = z3.And(inst(e, 'Exception'), V.oref(e) >= 0)
+        if z3.eq(f, A['directive_arguments_coercer']):
+            ok = len(a) == 0 and set(kw) == {'ctx'}
+            st = st.put_ghost('coercer_calls', st.ghost['coercer_calls'] + 1).put_ghost('coercer_ctx', en.read(kw['ctx'], st) if ok else V.Missing)
+            return en.branches(st, [(z3.Not(self.coercer_fails), self.dargs), (z3.And(self.coercer_fails, exc), Raise(e))])
+        if z3.eq(f, A['directive_func']):
+            shape = len(a) == 3 and isinstance(a[2], tuple) and a[2][0] == '*' and set(kw) == {'**'}
+            rec = V.Tuple(mklist(en.read(a[0], st), en.read(a[1], st), en.read(a[2][1], st), en.read(kw['**'], st))) if shape else V.Missing
+            st = st.put_ghost('hook_calls', st.ghost['hook_calls'] + 1).put_ghost('hook_args', rec).put_ghost('hook_after_coercer', st.ghost['coercer_calls'] == 1)
+            return en.branches(st, [(z3.Not(self.hook_fails), self.result), (z3.And(self.hook_fails, exc), Raise(e))])
+        if z3.eq(f, A['wrapped_func']):
+            return [(st.put_ghost('next_calls', st.ghost['next_calls'] + 1), fresh('next_stage'))]
+        return None
+
+    def post(self, A, st0, out):
+        g = out.st.ghost
+        nxt = V.Fun(V.fname(A['wrapped_func']), assoc_set(assoc_set(V.fbound(A['wrapped_func']), S('__partial__'), V.Bool(True)), S('context_coercer'), A['context_coercer']))
+        common = [('arguments_coerced_exactly_once_with_the_request_context', z3.And(g['coercer_calls'] == 1, g['coercer_ctx'] == A['context_coercer'])),
+                  ('next_stage_not_run_by_the_executor', g['next_calls'] == 0)]
+        if out.kind == 'raise':
+            return common + [('only_the_coercer_or_the_hook_fails', z3.Or(self.coercer_fails, self.hook_fails)),
+                             ('hook_not_run_after_a_failed_coercion', z3.Implies(self.coercer_fails, g['hook_calls'] == 0))]
+        return common + [('hook_awaited_exactly_once_after_coercion', z3.And(g['hook_calls'] == 1, g['hook_after_coercer'])),
+                         ('with_its_arguments_the_next_stage_and_the_rest', g['hook_args'] == V.Tuple(mklist(self.dargs, nxt, A['args'], self.kwrest))),
+                         ('hook_result_is_the_result', out.value == self.result)]
+
+
+class ResolverExecutor(Contract):
+    """innermost adapter: the raw resolver is awaited exactly once with the positional arguments unchanged and without context_coercer"""
+    key = D + 'resolver_executor'
+    property_ids = ('C13', 'C01')
+    params = ['resolver']
+
+    def args(self, en, names):
+        self.A = A = super().args(en, names)
+        A['args'] = fresh('rest_args')
+        self.cc = fresh('context_coercer_kw')
+        self.kwrest = fresh('rest_kwargs')
+        A['kwargs'] = SX.KwBundle({'context_coercer': self.cc}, self.kwrest)
+        self.result = fresh('resolved')
+        self.fails = fresh('resolver_fails', BoolS)
+        return A
+
+    def pre(self, A, st):
+        return [('resolver', V.is_Fun(A['resolver'])), ('rest', V.is_Tuple(A['args']))]
+
+    def ghost0(self, A):
+        return {'calls': z3.IntVal(0), 'call_args': V.Missing}
+
+    def call_model(self, en, st, f, a, kw):
+        if z3.eq(f, self.A['resolver']):
+            shape = len(a) == 1 and isinstance(a[0], tuple) and a[0][0] == '*' and set(kw) == {'**'}
+            st = st.put_ghost('calls', st.ghost['calls'] + 1).put_ghost('call_args', V.Tuple(mklist(en.read(a[0][1], st), en.read(kw['**'], st))) if shape else V.Missing)
+            e = V.Obj(fresh('ecls', IntS), fresh('eref', IntS))
+            return en.branches(st, [(z3.Not(self.fails), self.result), (z3.And(self.fails, inst(e, 'Exception'), V.oref(e) >= 0), Raise(e))])
+        return None
+
+    def post(self, A, st0, out):
+        g = out.st.ghost
+        common = [('resolver_awaited_exactly_once_with_the_same_arguments_and_no_context_coercer', z3.And(g['calls'] == 1, g['call_args'] == V.Tuple(mklist(A['args'], self.kwrest))))]
+        if out.kind == 'raise':
+            return common + [('only_the_resolver_fails', self.fails)]
+        return common + [('its_value_is_the_value', out.value == self.result)]
+
+
+
+# ---- compute_directive_nodes: one entry per directive INSTANCE, in declaration order, each bound to its own node and definition
+G = 'tartiflette/types/helpers/get_directive_instances.py::'
+Callables = z3.Function('HookCallablesOf', V, V)        # get_callables(implementation): the on_* coroutine attributes (dir/getattr: opaque)
+LEMMA_HOOKS.append(lambda e, n: [V.is_Dict(e)] if n == 'HookCallablesOf' else [])      # it is a dict comprehension
+
+
+def dir_def(schema, node):
+    return lookup(V.ditems(attr0(schema, '_directive_definitions')), attr0(attr0(node, 'name'), 'value'))
+
+
+def directive_node_wf(n, schema):
+    d = dir_def(schema, n)
+    return z3.And(exact(n, 'DirectiveNode'), V.oref(n) >= 0, exact(attr0(n, 'name'), 'NameNode'), V.oref(attr0(n, 'name')) >= 0, V.is_Str(attr0(attr0(n, 'name'), 'value')),
+                  exact(d, 'GraphQLDirective'), V.oref(d) >= 0)      # known directive (rule 5.7.1 holds for validated documents; SDL directives are checked at build)
+
+
+AllDirectiveNodes = ForallList('known_directive_node', directive_node_wf, param_sorts=[V])
+
+
+def cdn_entry(schema, node, vv):
+    d = dir_def(schema, node)
+    bound = VL.nil
+    for k, v in (('__partial__', V.Bool(True)), ('argument_definitions', attr0(d, 'arguments')), ('node', node),
+                 ('variable_values', z3.If(py_truthy(vv), vv, V.Dict(VL.nil))), ('coercer', attr0(d, 'arguments_coercer'))):
+        bound = assoc_set(bound, S(k), v)
+    coercer = V.Fun(fun_id('tartiflette/coercers/arguments.py::coerce_arguments'), bound)
+    return V.Dict(mklist(V.Pair(S('callables'), Callables(attr0(d, 'implementation'))), V.Pair(S('arguments_coercer'), coercer)))
+
+
+CDNUpTo = z3.RecFunction('ComputedDirectiveEntriesUpTo', V, VL, V, IntS, VL)
+_sc, _vv = z3.Consts('cd_schema cd_vars', V)
+_cdn = lambda sc, ns, vv, k: z3.If(k <= 0, VL.nil, snoc(CDNUpTo(sc, ns, vv, k - 1), cdn_entry(sc, nth(ns, k - 1), vv)))
+z3.RecAddDefinition(CDNUpTo, [_sc, _ns, _vv, _k], _cdn(_sc, _ns, _vv, _k))
+UNFOLD['ComputedDirectiveEntriesUpTo'] = _cdn
+
+
+class ComputeDirectiveNodes(Contract):
+    key = G + 'compute_directive_nodes'
+    property_ids = ('C13',)
+    params = ['schema', 'directive_nodes', 'variable_values']
+    inline = (G + 'transform_directive', 'tartiflette/schema/schema.py::GraphQLSchema.find_directive')
+
+    def args(self, en, names):
+        self.A = super().args(en, names)
+        return self.A
+
+    def pre(self, A, st):
+        dn, sc = A['directive_nodes'], A['schema']
+        return [('schema', z3.And(exact(sc, 'GraphQLSchema'), V.oref(sc) >= 0, V.is_Dict(attr0(sc, '_directive_definitions')))),
+                ('nodes', z3.Or(dn == V.None_, z3.And(V.is_List(dn), AllDirectiveNodes(V.items(dn), sc)))),
+                ('variables', z3.Or(A['variable_values'] == V.None_, V.is_Dict(A['variable_values'])))]
+
+    # get_callables enumerates dir(implementation): opaque here, named by an uninterpreted function of the implementation object
+    callee_models = {G + 'get_callables': lambda en, st, a, kw: [(st, Callables(en.read(a[0], st)))]}
+
+    def _inv(self, en, st, k, st0):
+        A = self.A
+        cd = en.read(st.env['computed_directives'], st)
+        return {'one_entry_per_instance_in_order': cd == V.List(CDNUpTo(A['schema'], V.items(A['directive_nodes']), A['variable_values'], k)),
+                'entries_well_formed': AllDirectiveEntries(V.items(cd))}
+
+    @property
+    def loops(self):
+        return {0: LoopContract(self._inv)}
+
+    def post(self, A, st0, out):
+        if out.kind == 'raise':
+            return never_raises(out)
+        ns = z3.If(V.is_List(A['directive_nodes']), V.items(A['directive_nodes']), VL.nil)
+        return [('one_entry_per_directive_instance_in_declaration_order_bound_to_its_node_and_definition',
+                 out.value == V.List(CDNUpTo(A['schema'], ns, A['variable_values'], length(ns)))),
+                ('entries_well_formed', AllDirectiveEntries(V.items(out.value)))]
+
+
+
+# ---- bake() wiring: which chain ends up in which baked coercer
+def closure(key, *pos, **kw):
+    """functools.partial(<repo function>, *pos, **kw) as the engine represents it"""
+    bound = VL.nil
+    for i, v in enumerate(pos):
+        bound = snoc(bound, V.Pair(V.Int(i), v))
+    bound = assoc_set(bound, S('__partial__'), V.Bool(True))
+    for k, v in kw.items():
+        bound = assoc_set(bound, S(k), v)
+    return V.Fun(fun_id(key), bound)
+
+
+def partial_of(f, *pos, **kw):
+    """functools.partial(f, *pos, **kw) over a callable value"""
+    from pyvc.builtins import partial_bind
+    return V.Fun(V.fname(f), partial_bind(V.fbound(f), list(pos), list(kw.items())))
+
+
+def baked_directives(schema, directives):
+    """compute_directive_nodes(schema, directives) at bake time (no variables)"""
+    ns = z3.If(V.is_List(directives), V.items(directives), VL.nil)
+    return CDNUpTo(schema, ns, V.None_, length(ns))
+
+
+_WW = WrapsWithDirectives()
+
+
+def chain(ds, hook, func=V.None_, is_resolver=False, with_default=False):
+    """wraps_with_directives(ds, hook, func, is_resolver, with_default) by its contract"""
+    A = {'directives_definition': V.List(ds), 'directive_hook': S(hook), 'func': func, 'is_resolver': V.Bool(is_resolver), 'with_default': V.Bool(with_default),
+         'is_async_generator': V.Bool(False)}
+    base, wr = _WW.base(A)
+    nothing = z3.And(func == V.None_, z3.Not(z3.BoolVal(with_default)), VL.is_nil(ds))
+    return z3.If(nothing, V.None_, ChainFrom(ds, 0, S(hook), wr, base))
+
+
+def bake_pre(A):
+    sc, me = A['schema'], A['self']
+    dn = attr0(me, 'directives')
+    return [('schema', z3.And(exact(sc, 'GraphQLSchema'), V.oref(sc) >= 0, V.is_Dict(attr0(sc, '_directive_definitions')))),
+            ('directives', z3.Or(dn == V.None_, z3.And(V.is_List(dn), AllDirectiveNodes(V.items(dn), sc))))]
+
+
+CI, CL, CO = 'tartiflette/coercers/inputs/', 'tartiflette/coercers/literals/', 'tartiflette/coercers/outputs/'
+
+
+class ScalarBake(Contract):
+    """GraphQLScalarType.bake: the variable path and the literal path get THE SAME on_post_input_coercion chain of the type's own directives; the
+    output path gets the on_pre_output_coercion chain; each wraps the scalar coercer bound to this type"""
+    key = 'tartiflette/types/scalar.py::GraphQLScalarType.bake'
+    property_ids = ('C13',)
+    params = ['self', 'schema']
+    self_class = 'GraphQLScalarType'
+    modifies_fields = ('introspection_directives', 'input_coercer', 'literal_coercer', 'output_coercer')
+
+    def pre(self, A, st):
+        return [('self', V.oref(A['self']) >= 0)] + bake_pre(A)
+
+    def post(self, A, st0, out):
+        if out.kind == 'raise':
+            return never_raises(out)
+        me = A['self']
+        ds = baked_directives(A['schema'], attr0(me, 'directives'))
+        post_in = chain(ds, 'on_post_input_coercion')
+        return [('input_path', fld(out.st, 'input_coercer', me) == closure(CI + 'directives_coercer.py::input_directives_coercer',
+                                                                           coercer=closure(CI + 'scalar_coercer.py::scalar_coercer', scalar_type=me), directives=post_in)),
+                ('literal_path_same_hooks', fld(out.st, 'literal_coercer', me) == closure(CL + 'directives_coercer.py::literal_directives_coercer',
+                                                                                          coercer=closure(CL + 'scalar_coercer.py::scalar_coercer', scalar_type=me), directives=post_in)),
+                ('output_path', fld(out.st, 'output_coercer', me) == closure(CO + 'directives_coercer.py::output_directives_coercer',
+                                                                             coercer=closure(CO + 'scalar_coercer.py::scalar_coercer', scalar_type=me),
+                                                                             directives=chain(ds, 'on_pre_output_coercion', with_default=True))),
+                ('introspection', fld(out.st, 'introspection_directives', me) == chain(ds, 'on_introspection'))]
+
+
+
+class EnumTypeBake(Contract):
+    """GraphQLEnumType.bake: as for scalars -- one on_post_input_coercion chain shared by the variable and the literal path"""
+    key = 'tartiflette/types/enum.py::GraphQLEnumType.bake'
+    property_ids = ('C13',)
+    params = ['self', 'schema']
+    self_class = 'GraphQLEnumType'
+    modifies_fields = ('introspection_directives', 'input_coercer', 'literal_coercer', 'output_coercer')
+
+    def pre(self, A, st):
+        return [('self', V.oref(A['self']) >= 0)] + bake_pre(A)
+
+    def post(self, A, st0, out):
+        if out.kind == 'raise':
+            return never_raises(out)
+        me = A['self']
+        ds = baked_directives(A['schema'], attr0(me, 'directives'))
+        post_in = chain(ds, 'on_post_input_coercion')
+        return [('input_path', fld(out.st, 'input_coercer', me) == closure(CI + 'directives_coercer.py::input_directives_coercer',
+                                                                           coercer=closure(CI + 'enum_coercer.py::enum_coercer', enum_type=me), directives=post_in)),
+                ('literal_path_same_hooks', fld(out.st, 'literal_coercer', me) == closure(CL + 'directives_coercer.py::literal_directives_coercer',
+                                                                                          coercer=closure(CL + 'enum_coercer.py::enum_coercer', enum_type=me), directives=post_in)),
+                ('output_path', fld(out.st, 'output_coercer', me) == closure(CO + 'directives_coercer.py::output_directives_coercer',
+                                                                             coercer=closure(CO + 'enum_coercer.py::enum_coercer', enum_type=me),
+                                                                             directives=chain(ds, 'on_pre_output_coercion', with_default=True))),
+                ('introspection', fld(out.st, 'introspection_directives', me) == chain(ds, 'on_introspection'))]
+
+
+class EnumValueBake(Contract):
+    """GraphQLEnumValue.bake: the value's own directives; input and literal path are the same chain object"""
+    key = 'tartiflette/types/enum.py::GraphQLEnumValue.bake'
+    property_ids = ('C13',)
+    params = ['self', 'schema']
+    self_class = 'GraphQLEnumValue'
+    modifies_fields = ('introspection_directives', 'input_coercer', 'literal_coercer', 'output_coercer', 'on_post_bake')
+
+    def pre(self, A, st):
+        return [('self', V.oref(A['self']) >= 0)] + bake_pre(A)
+
+    def post(self, A, st0, out):
+        if out.kind == 'raise':
+            return never_raises(out)
+        me = A['self']
+        ds = baked_directives(A['schema'], attr0(me, 'directives'))
+        post_in = chain(ds, 'on_post_input_coercion', with_default=True)
+        return [('input_path', fld(out.st, 'input_coercer', me) == post_in),
+                ('literal_path_same_hooks', fld(out.st, 'literal_coercer', me) == post_in),
+                ('output_path', fld(out.st, 'output_coercer', me) == chain(ds, 'on_pre_output_coercion', with_default=True)),
+                ('introspection', fld(out.st, 'introspection_directives', me) == chain(ds, 'on_introspection')),
+                ('post_bake_hooks_bound_to_this_value', fld(out.st, 'on_post_bake', me) == partial_of(chain(ds, 'on_post_bake', with_default=True), me))]
+
+
+
+GqlTypeOf = z3.Function('ResolvedGraphQLType', V, V, V)         # get_graphql_type(schema, type reference)
+InCoercerOf = z3.Function('InputCoercerOfType', V, V)           # get_input_coercer(type)    (its own contract: C04)
+LitCoercerOf = z3.Function('LiteralCoercerOfType', V, V)        # get_literal_coercer(type)
+OutCoercerOf = z3.Function('OutputCoercerOfType', V, V, V)      # get_output_coercer(type, concurrently)  (its own contract: C02)
+for _n in ('InputCoercerOfType', 'LiteralCoercerOfType', 'OutputCoercerOfType'):
+    LEMMA_HOOKS.append(lambda e, n, _n=_n: [V.is_Fun(e)] if n == _n else [])
+TYPE_MODELS = {
+    'tartiflette/types/helpers/type.py::get_graphql_type': lambda en, st, a, kw: [(st, GqlTypeOf(en.read(a[0], st), en.read(a[1], st)))],
+    'tartiflette/coercers/inputs/compute.py::get_input_coercer': lambda en, st, a, kw: [(st, InCoercerOf(en.read(a[0], st)))],
+    'tartiflette/coercers/literals/compute.py::get_literal_coercer': lambda en, st, a, kw: [(st, LitCoercerOf(en.read(a[0], st)))],
+    'tartiflette/coercers/outputs/compute.py::get_output_coercer': lambda en, st, a, kw: [(st, OutCoercerOf(en.read(a[0], st), en.read(a[1], st)))],
+}
+
+
+def typed_member_pre(A):
+    me = A['self']
+    gt = GqlTypeOf(A['schema'], attr0(me, 'gql_type'))
+    return [('self', V.oref(me) >= 0), ('type_reference', z3.Or(V.is_Str(attr0(me, 'gql_type')), inst(attr0(me, 'gql_type'), 'GraphQLType'))),
+            ('introspection_type_dict', V.is_Dict(attr0(me, 'type'))),
+            ('resolved_type', z3.And(inst(gt, 'GraphQLType'), V.oref(gt) >= 0))] + bake_pre(A)
+
+
+class InputFieldBake(Contract):
+    """GraphQLInputField.bake: the field's own on_post_input_coercion chain wraps the coercer of the field's TYPE on both paths (the literal
+    path flagged is_input_field)"""
+    key = 'tartiflette/types/input_field.py::GraphQLInputField.bake'
+    property_ids = ('C13',)
+    params = ['self', 'schema']
+    self_class = 'GraphQLInputField'
+    modifies_fields = ('graphql_type', 'type', 'defaultValue', 'introspection_directives', 'input_coercer', 'literal_coercer')
+    callee_models = TYPE_MODELS
+
+    def pre(self, A, st):
+        return typed_member_pre(A)
+
+    def post(self, A, st0, out):
+        if out.kind == 'raise':
+            return never_raises(out)
+        me = A['self']
+        ds = baked_directives(A['schema'], attr0(me, 'directives'))
+        gt = GqlTypeOf(A['schema'], attr0(me, 'gql_type'))
+        post_in = chain(ds, 'on_post_input_coercion')
+        return [('resolved_type_recorded', fld(out.st, 'graphql_type', me) == gt),
+                ('input_path', fld(out.st, 'input_coercer', me) == closure(CI + 'directives_coercer.py::input_directives_coercer', coercer=InCoercerOf(gt), directives=post_in)),
+                ('literal_path_same_hooks', fld(out.st, 'literal_coercer', me) == closure(CL + 'directives_coercer.py::literal_directives_coercer', coercer=LitCoercerOf(gt),
+                                                                                          directives=post_in, is_input_field=V.Bool(True))),
+                ('introspection', fld(out.st, 'introspection_directives', me) == chain(ds, 'on_introspection'))]
+
+
+class ArgumentBake(Contract):
+    """GraphQLArgument.bake: the argument's on_argument_execution chain is bound into argument_coercer; its literal coercer is the type's"""
+    key = 'tartiflette/types/argument.py::GraphQLArgument.bake'
+    property_ids = ('C13', 'C05')
+    params = ['self', 'schema']
+    self_class = 'GraphQLArgument'
+    modifies_fields = ('graphql_type', 'type', 'defaultValue', 'introspection_directives', 'coercer', 'literal_coercer')
+    callee_models = TYPE_MODELS
+
+    def pre(self, A, st):
+        return typed_member_pre(A)
+
+    def post(self, A, st0, out):
+        if out.kind == 'raise':
+            return never_raises(out)
+        me = A['self']
+        ds = baked_directives(A['schema'], attr0(me, 'directives'))
+        gt = GqlTypeOf(A['schema'], attr0(me, 'gql_type'))
+        return [('resolved_type_recorded', fld(out.st, 'graphql_type', me) == gt),
+                ('literal_coercer_of_the_declared_type', fld(out.st, 'literal_coercer', me) == LitCoercerOf(gt)),
+                ('argument_hooks_bound', fld(out.st, 'coercer', me) == closure('tartiflette/coercers/argument.py::argument_coercer', directives=chain(ds, 'on_argument_execution'))),
+                ('introspection', fld(out.st, 'introspection_directives', me) == chain(ds, 'on_introspection'))]
+
+
+
+class FieldBake(Contract):
+    """GraphQLField.bake: the field's on_field_execution chain (first declared outermost) wraps the resolver adapter around the raw resolver (or
+    the custom / builtin default) and is bound, with the output coercer of the declared type, into resolve_field; arguments are baked in order"""
+    key = 'tartiflette/types/field.py::GraphQLField.bake'
+    property_ids = ('C13', 'C01')
+    params = ['self', 'schema', 'custom_default_resolver']
+    self_class = 'GraphQLField'
+    modifies_fields = ('graphql_type', 'arguments_coercer', 'list_concurrently', 'parent_concurrently', 'on_post_bake', 'introspection_directives', 'resolver', 'args')
+    callee_models = TYPE_MODELS
+    merge_ifs = 'always'      # the three concurrency / coercer selections rejoin after each `if`
+
+    def args(self, en, names):
+        self.A = super().args(en, names)
+        return self.A
+
+    def pre(self, A, st):
+        me, sc = A['self'], A['schema']
+        rr = attr0(me, 'raw_resolver')
+        return [('self', V.oref(me) >= 0), ('raw_resolver', z3.Or(rr == V.None_, V.is_Fun(rr))),
+                ('custom_default', z3.Or(A['custom_default_resolver'] == V.None_, V.is_Fun(A['custom_default_resolver']))),
+                ('arguments', z3.And(V.is_Dict(attr0(me, 'arguments')), AllArgEntries(V.ditems(attr0(me, 'arguments'))))),
+                ('args_list', V.is_List(attr0(me, 'args')))] + bake_pre(A)
+
+    def ghost0(self, A):
+        return {'baked': V.List(VL.nil)}
+
+    def instance_method_model(self, en, st, v, attr):
+        return None
+
+    def getattr_hook(self, en, st, v, attr):
+        if attr == 'bake' and not z3.eq(v, self.A['self']):
+            def bake(en, s, a, kw, v=v):
+                return [(s.put_ghost('baked', V.List(snoc(V.items(s.ghost['baked']), V.Tuple(mklist(v, en.read(a[0], s)))))), V.None_)]
+            return [(st, PyFunc('argument.bake', bake))]
+        return None
+
+    def _inv(self, en, st, k, st0):
+        me = self.A['self']
+        argl = vals(V.ditems(attr0(me, 'arguments')))
+        return {'arguments_baked_in_order_with_the_schema': st.ghost['baked'] == V.List(BakedUpTo(argl, self.A['schema'], k)),
+                'args_collects_them': fld(st, 'args', me) == V.List(AppendedUpTo(V.items(fld(st0, 'args', me)), argl, k))}
+
+    @property
+    def loops(self):
+        return {0: LoopContract(self._inv, modifies_fields=('args',), modifies_ghost=('baked',))}
+
+    def post(self, A, st0, out):
+        if out.kind == 'raise':
+            return never_raises(out)
+        me, sc = A['self'], A['schema']
+        ds = baked_directives(sc, attr0(me, 'directives'))
+        gt = GqlTypeOf(sc, attr0(me, 'gql_type'))
+        rr = attr0(me, 'raw_resolver')
+        raw = z3.If(py_truthy(rr), rr, z3.If(py_truthy(A['custom_default_resolver']), A['custom_default_resolver'], fn('tartiflette/resolver/default.py::default_field_resolver')))
+        argl = vals(V.ditems(attr0(me, 'arguments')))
+        return [('resolved_type_recorded', fld(out.st, 'graphql_type', me) == gt),
+                ('field_hooks_wrap_the_resolver', fld(out.st, 'resolver', me) == closure(
+                    'tartiflette/resolver/factory.py::resolve_field', field_definition=me,
+                    resolver=chain(ds, 'on_field_execution', func=raw, is_resolver=True, with_default=True),
+                    output_coercer=OutCoercerOf(gt, fld(out.st, 'list_concurrently', me)))),
+                ('introspection', fld(out.st, 'introspection_directives', me) == chain(ds, 'on_introspection')),
+                ('every_argument_baked_once_in_order', out.st.ghost['baked'] == V.List(BakedUpTo(argl, sc, length(argl))))]
+
+
+AllArgEntries = ForallList('argument_entry', lambda p: z3.And(V.is_Pair(p), exact(V.snd(p), 'GraphQLArgument'), V.oref(V.snd(p)) >= 0))
+BakedUpTo = z3.RecFunction('ArgumentsBakedUpTo', VL, V, IntS, VL)
+_al = z3.Const('ba_l', VL)
+_bk = lambda al, sc, k: z3.If(k <= 0, VL.nil, snoc(BakedUpTo(al, sc, k - 1), V.Tuple(mklist(nth(al, k - 1), sc))))
+z3.RecAddDefinition(BakedUpTo, [_al, _sc, _k], _bk(_al, _sc, _k))
+UNFOLD['ArgumentsBakedUpTo'] = _bk
+AppendedUpTo = z3.RecFunction('AppendedUpTo', VL, VL, IntS, VL)       # l0 followed by the first k elements of l
+_al0 = z3.Const('ba_l0', VL)
+_apk = lambda l0, al, k: z3.If(k <= 0, l0, snoc(AppendedUpTo(l0, al, k - 1), nth(al, k - 1)))
+z3.RecAddDefinition(AppendedUpTo, [_al0, _al, _k], _apk(_al0, _al, _k))
+UNFOLD['AppendedUpTo'] = _apk
+
+CONTRACTS = [ResolveFieldValueOrError(), WrapsWithDirectives(), DirectiveExecutor(), ResolverExecutor(), ComputeDirectiveNodes(), ScalarBake(), EnumTypeBake(), EnumValueBake(), InputFieldBake(), ArgumentBake(), FieldBake()]
 LEMMAS = []
